@@ -187,6 +187,17 @@ def next_stmt(x):
     return None
 
 
+def prev_stmt(x):
+    """the statement that precedes x in its own block, or None"""
+    par = getattr(x, "_parent", None)
+    for fld in ("body", "orelse", "finalbody"):
+        blk = getattr(par, fld, None)
+        if isinstance(blk, list) and x in blk:
+            i = blk.index(x)
+            return blk[i - 1] if i > 0 else None
+    return None
+
+
 def ref_sites(prog, name, loads_only=True):
     """[(module, node, enclosing FunctionInfo|None)] for every syntactic reference to identifier `name`"""
     out = []
